@@ -533,7 +533,7 @@ fn score_strategy() -> impl proptest::strategy::Strategy<Value = (u8, i64)> {
             3 => any::<i32>().prop_map(|x| x as i64),
             2 => -4i64..=4,
             2 => prop_oneof![Just(i32::MIN as i64), Just(i32::MAX as i64), Just(65535i64), Just(65534), Just(65536), Just(-65536), Just(255), Just(256)],
-            1 => (0i64..=65535),
+            1 => 0i64..=65535,
         ],
     )
 }
